@@ -15,7 +15,7 @@ TECH = {
  "C06": "scalar-semantics proof obligations on the real PatternedTensor method ASTs (semvc/z3 NRA) + bounded stand-in for denotation + run-time representation invariant (hook)",
  "C07": "scalar-semantics proof obligations for the einsum callbacks (semvc/z3) + bounded stand-in against nested-loop einsum",
  "C08": "semiring laws as proof obligations over the real method bodies, extended reals in z3 nonlinear arithmetic (semvc) + bounded stand-in for the representation clause",
- "C09": "ownership analysis obligations on the real ASTs (arguments unmodified) + bounded stand-in against dense Kleene iteration",
+ "C09": "contract-based VCs (pyvc/z3) for the elimination order of multi_solve (permutation of the block indices; nested recursive dfs under its own contract) + ownership analysis obligations on the real ASTs (arguments unmodified) + bounded stand-in against dense Kleene iteration",
  "C10": "contract-based VCs (pyvc/z3) with loop invariants for the graph helpers, eliminate_node, min_fill, dispatch and tree_decomposition_from_order (vertex and edge cover; nested recursive function under its own contract) + exhaustive bounded stand-in for running intersection / tree shape / optimality / acb",
  "C11": "assertion-purity obligations by static analysis of the real ASTs + scalar homomorphism proofs (semvc/z3) + bounded relational stand-in",
  "C12": "static obligations: no ordering of ids/labels in solver modules + commutativity/associativity proofs (semvc/z3) + bounded relational stand-in",
@@ -62,7 +62,7 @@ def main(claimed):
                   "baseline_off_cmd": "cd /repo && /venv/bin/python -m pytest -ra -q -p no:cacheprovider --timeout=900 --continue-on-collection-errors",
                   "source_commits": hook_commits, "add_only": True},
         "engines": [
-            {"name": "pyvc", "path": "vf/pyvc", "serves_properties": ["C01", "C02", "C03", "C05", "C10", "C14", "C15", "C16", "C17", "C18", "C19", "C20"],
+            {"name": "pyvc", "path": "vf/pyvc", "serves_properties": ["C01", "C02", "C03", "C05", "C09", "C10", "C14", "C15", "C16", "C17", "C18", "C19", "C20"],
              "kind_free_text": "VC generator: symbolic execution of the real ASTs of /repo/fggs against sidecar contracts (contracts/*.py), loops by invariant, discharge with z3 (rlimit) then cvc5"},
             {"name": "semvc", "path": "vf/semvc", "serves_properties": ["C02", "C06", "C07", "C08", "C11", "C12"],
              "kind_free_text": "scalar semantics of elementwise tensor code over extended reals (IEEE special values) in z3 nonlinear arithmetic"},
